@@ -26,7 +26,7 @@ func genShape(t *rapid.T, depth int, inList, lil bool) *shape {
 	switch {
 	case k <= 2:
 		return &shape{kind: 0}
-	case k <= 5 || (inList && !(lil && k == 9)):
+	case k <= 5 || (inList && !(lil && k >= 8)):
 		s := &shape{kind: 1, fields: map[string]*shape{}}
 		n := rapid.IntRange(1, 4).Draw(t, "nf")
 		for i := 0; i < n; i++ {
@@ -277,4 +277,99 @@ func boostWide(t *rapid.T) (map[string]interface{}, []Step) {
 		steps = []Step{{k1, -1}, {"*", -1}}
 	}
 	return root, steps
+}
+
+// boostLIL: a key below a list that is a direct member of a list.
+func boostLIL(t *rapid.T) (map[string]interface{}, []Step, string) {
+	k1 := rapid.SampledFrom(shapeKeys).Draw(t, "k1")
+	k2 := rapid.SampledFrom(shapeKeys).Draw(t, "k2")
+	k3 := rapid.SampledFrom(shapeKeys).Draw(t, "k3")
+	leafMap := func() interface{} {
+		m := map[string]interface{}{k2: instScalar(t)}
+		if rapid.Bool().Draw(t, "deeper") {
+			m[k2] = map[string]interface{}{k3: instScalar(t), k2: instScalar(t)}
+		}
+		if rapid.Bool().Draw(t, "extra") {
+			m[k3] = instScalar(t)
+		}
+		return m
+	}
+	n := rapid.IntRange(1, 3).Draw(t, "nouter")
+	outer := make([]interface{}, n)
+	for i := range outer {
+		switch rapid.IntRange(0, 3).Draw(t, "memkind") {
+		case 0:
+			outer[i] = leafMap()
+		case 1:
+			outer[i] = instScalar(t)
+		default:
+			ni := rapid.IntRange(0, 3).Draw(t, "ninner")
+			inner := make([]interface{}, ni)
+			for j := range inner {
+				switch rapid.IntRange(0, 3).Draw(t, "innerkind") {
+				case 0:
+					inner[j] = instScalar(t)
+				case 1:
+					inner[j] = []interface{}{leafMap()}
+				default:
+					inner[j] = leafMap()
+				}
+			}
+			outer[i] = inner
+		}
+	}
+	root := map[string]interface{}{k1: outer, "o": instScalar(t)}
+	if rapid.Bool().Draw(t, "wrap") {
+		root = map[string]interface{}{"w": root}
+	}
+	steps := []Step{{k1, -1}, {k2, -1}}
+	if _, ok := root["w"]; ok {
+		steps = append([]Step{{"w", -1}}, steps...)
+	}
+	switch rapid.IntRange(0, 3).Draw(t, "tail") {
+	case 0:
+		steps = append(steps, Step{k3, -1})
+	case 1:
+		steps = append(steps, Step{"*", -1})
+	}
+	return root, steps, k2
+}
+
+// boostFilter: a list of sibling maps over a small key/value alphabet, for sub-key filters.
+func boostFilter(t *rapid.T) (map[string]interface{}, []Step, string, []Cond) {
+	k1 := rapid.SampledFrom(shapeKeys).Draw(t, "k1")
+	fkeys := []string{"a", "b", "c"}
+	vals := []interface{}{"x", "y", true, false, float64(1), float64(2)}
+	n := rapid.IntRange(2, 5).Draw(t, "n")
+	l := make([]interface{}, n)
+	for i := range l {
+		m := map[string]interface{}{}
+		for _, fk := range fkeys {
+			if rapid.IntRange(0, 3).Draw(t, "has") > 0 {
+				m[fk] = vals[rapid.IntRange(0, len(vals)-1).Draw(t, "v")]
+			}
+		}
+		l[i] = m
+	}
+	if rapid.IntRange(0, 3).Draw(t, "scalarmember") == 0 {
+		l = append(l, instScalar(t))
+	}
+	root := map[string]interface{}{k1: l, "o": map[string]interface{}{k1: l[0]}}
+	var cs []Cond
+	nc := rapid.IntRange(1, 3).Draw(t, "nc")
+	used := map[string]bool{}
+	for i := 0; i < nc; i++ {
+		c := Cond{Key: rapid.SampledFrom(append([]string{"zz"}, fkeys...)).Draw(t, "ck"), Neg: rapid.IntRange(0, 2).Draw(t, "neg") == 0}
+		if used[c.Key] {
+			continue
+		}
+		used[c.Key] = true
+		if rapid.IntRange(0, 3).Draw(t, "wild") == 0 {
+			c.Wild = true
+		} else {
+			c.Val = vals[rapid.IntRange(0, len(vals)-1).Draw(t, "cv")]
+		}
+		cs = append(cs, c)
+	}
+	return root, []Step{{k1, -1}}, k1, cs
 }
